@@ -205,7 +205,9 @@ def nested_part(ctx, dist, nontrivial, batch, N, cases_dbg, i0):
         inner_bound = [k for n in g["nodes"] if n["kind"] == "graph" for k in n["graph"].get("bound", {})]
         if inner_bound and rng.random() < 0.6:
             p = rng.choice(inner_bound)
-            g["nodes"].append({"name": "sib", "kind": "func", "inputs": [p], "outputs": ["sib_out"], "emit": [], "wait_for": [], "defaults": {}, "fn": ["sym", "sib"]})
+            # (listed before or after the nested graph: the reported spec does not depend on the node order)
+            g["nodes"].insert(rng.randint(0, len(g["nodes"])),
+                              {"name": "sib", "kind": "func", "inputs": [p], "outputs": ["sib_out"], "emit": [], "wait_for": [], "defaults": {}, "fn": ["sym", "sib"]})
         ren = c05.rename_wrapper_inputs(rng, g) if rng.random() < 0.5 else {}
         g["bound"] = {ren.get(k, k): v for k, v in g.get("bound", {}).items()}
         outs = [o for nn in g["nodes"] for o in gen.iface(nn)[1]]
